@@ -8,7 +8,7 @@ is a small sum type with Python truthiness.  Every `raise` is an `Err.lib` with 
 Python operation that *could* raise something else (pop from an empty list, dict lookup, `''.join(None)`, …) is
 modelled as `Err.crash` — `Props/C03.lean` proves that no input reaches one of those.
 
-Domain note: `str.isnumeric()` is modelled for ASCII only (the correspondence alphabet is ASCII).
+Domain note: the correspondence alphabet is ASCII (`str.split()` whitespace is modelled for ASCII).
 -/
 namespace ChythonModel.Model.C03
 open ChythonModel.Gen.C03
@@ -86,7 +86,11 @@ def lookupNat {β} (k : Nat) : List (Nat × β) → Option β
   | [] => none
   | (a, b) :: tl => if a == k then some b else lookupNat k tl
 
-def isDigit (c : Nat) : Bool := 48 ≤ c && c ≤ 57
+/-- `s in '0123456789'` (regenerated class) -/
+def isDigit (c : Nat) : Bool := digitChars.contains c
+
+/-- `[0-9]` of the CXSMILES regexes -/
+def isDigit09 (c : Nat) : Bool := 48 ≤ c && c ≤ 57
 
 def digitsToNat (s : Str) : Nat := s.foldl (fun acc c => acc * 10 + (c - 48)) 0
 
